@@ -145,10 +145,11 @@ type c11Case struct {
 	// p = the next out and the next err write issued concurrently from two goroutines;
 	// d = a Double call; w = the plugin is idle for `idle` ms (the connection stays up, nothing is
 	// written).  "I" = two goroutines, one per stream, each issuing its writes in order.
-	steps string
-	idle  int // ms, the length of each 'w' step
-	bg    bool   // a background goroutine keeps calling Double during the script
-	cseed uint64 // seed of the model's (unobservable) read cuts and select order
+	steps  string
+	idle   int    // ms, the length of each 'w' step
+	adelay int    // ms between Start returning (the plugin serving, its pre-attach bursts written) and the host's Client()
+	bg     bool   // a background goroutine keeps calling Double during the script
+	cseed  uint64 // seed of the model's (unobservable) read cuts and select order
 }
 
 func (c *c11Case) line() string {
@@ -160,12 +161,18 @@ func (c *c11Case) line() string {
 		be = c.berr.spec()
 	}
 	return fmt.Sprintf("C11 proto=%s mux=%s auto=%s bout=%s berr=%s out=%s err=%s steps=%s bg=%s cseed=%d idle=%d",
-		c.proto, b01(c.mux), b01(c.auto), bo, be, c11Specs(c.out), c11Specs(c.err), c.steps, b01(c.bg), c.cseed, c.idle)
+		c.proto, b01(c.mux), b01(c.auto), bo, be, c11Specs(c.out), c11Specs(c.err), c.steps, b01(c.bg), c.cseed, c.idle) + func() string {
+		if c.adelay > 0 {
+			return fmt.Sprintf(" adelay=%d", c.adelay)
+		}
+		return ""
+	}()
 }
 
 func c11FromLine(m map[string]string) (*c11Case, error) {
 	c := &c11Case{proto: m["proto"], mux: m["mux"] == "1", auto: m["auto"] == "1", steps: m["steps"], bg: m["bg"] == "1"}
 	c.cseed, _ = strconv.ParseUint(m["cseed"], 10, 64)
+	c.adelay, _ = strconv.Atoi(m["adelay"])
 	c.idle, _ = strconv.Atoi(m["idle"])
 	if c.idle < 0 || c.idle > 120000 {
 		return nil, fmt.Errorf("bad idle")
@@ -522,7 +529,10 @@ func runC11(c *c11Case, st *c11Stats) (impl, pred, detail string) {
 		if (c.hasBout && c.bout.n > c11SmallBurst) || (c.hasBerr && c.berr.n > c11SmallBurst) {
 			time.Sleep(30 * time.Millisecond) // let the large write block in the pipe
 		}
-		// ---- attach
+		// ---- attach (possibly long after the plugin began serving: what it wrote meanwhile must still be delivered)
+		if c.adelay > 0 {
+			time.Sleep(time.Duration(c.adelay) * time.Millisecond)
+		}
 		cp, err := client.Client()
 		if err != nil {
 			return fail("client", err)
@@ -708,6 +718,18 @@ func hostC11(o *out, replay string) {
 	nLate := 0
 	for _, i := range []int{1, 2, 4, 5, 0} {
 		cases = append(cases, c11Late(i, 6500))
+		nLate++
+	}
+	// a host that attaches late: pre-attach bursts on both streams, Client() 6.5 s after the plugin began serving
+	// (not with multiplexing: there the plugin's muxer gives up — and the plugin exits — when no host has connected
+	// within 5 s of its start, which is a connection matter outside this property)
+	for _, i := range []int{1, 0, 4} {
+		c := c11Late(i, 10)
+		c.hasBout, c.bout = true, c11Write{3, uint64(70 + i), 2500}
+		c.hasBerr, c.berr = true, c11Write{2, uint64(80 + i), 2500}
+		c.adelay = 6500
+		c.cseed = uint64(950 + i)
+		cases = append(cases, c)
 		nLate++
 	}
 	if tier() == "thorough" {
